@@ -155,6 +155,10 @@ def binop(ev, t, opn, a, b, inplace, ctx):
         shape = a.shape
     elif b.shape is not None and a.kind is not TOP and a.kind <= {'scalar', 'bool'}:
         shape = b.shape
+    elif a.shape is not None or b.shape is not None:
+        # the other operand's shape is unknown: broadcasting can only add leading axes or widen singleton axes
+        k = a.shape if a.shape is not None else b.shape
+        shape = Shape(True, tuple(frozenset(d - {'1'}) for d in k.dims))
     else:
         shape = None
     if inplace:
@@ -463,6 +467,9 @@ def axis_const(v, default=None):
 
 
 def reduce_shape(shape, axis, keepdims):
+    if shape is not None and axis is TOP and keepdims is True:
+        # unknown axes reduced with keepdims: rank and axis roles are preserved (sizes may become 1)
+        return Shape(shape.ell, tuple(frozenset(d - {'1'}) for d in shape.dims))
     if shape is None or axis is TOP or keepdims is TOP:
         return None
     if axis is None:
@@ -702,10 +709,13 @@ def shape_from_value(shp):
         return None
     if shp.meta is not None and isinstance(shp.meta, tuple) and shp.meta and shp.meta[0] == 'shape_of':
         return shp.meta[1].shape
-    if shp.tup is not None:
+    items = shp.tup
+    if items is None and shp.meta is not None and isinstance(shp.meta, tuple) and shp.meta and shp.meta[0] == 'seq_with_star':
+        items = shp.meta[1]
+    if items is not None:
         dims = []
         ell = False
-        for j, x in enumerate(shp.tup):
+        for j, x in enumerate(items):
             m = x.meta
             if m is not None and isinstance(m, tuple) and m and m[0] == 'dims':
                 if j != 0 and m[1]:
